@@ -29,9 +29,11 @@ RULE = (
     "Case = 1..5 requester threads x 1..3 calls with start offsets, per-request peer action (reply after d < T3 | reply "
     "after T3 | never), unsolicited primaries at generated times, 0..2 link drops with reconnect, initial system counter "
     "(incl. 2^32-3..2^32-1 wrap), schedule seed, switch probability and preemption probability in {get_next_system_counter, "
-    "_get_queue_for_system, _remove_queue, send_and_waitfor_response, _dispatcher_thread_function}. Non-trivial = >=2 requests "
-    "outstanding simultaneously with replies in a different order, or a late/missing reply, or a reconnect with traffic on both "
-    "sides; distinct by case hash."
+    "_get_queue_for_system, _remove_queue, send_and_waitfor_response, _dispatcher_thread_function}; frames due at the same instant "
+    "arrive one by one, back-to-back or in one segment; a quarter of the cases is a focused burst family (immediate replies and "
+    "unsolicited primaries at the same instants, nothing afterwards, preemptions in the dispatcher and the receive hand-over). "
+    "Non-trivial = >=2 requests outstanding simultaneously with replies in a different order, or a late/missing reply, or a "
+    "reconnect with traffic on both sides, or a burst of >=2 inbound messages at one instant; distinct by case hash."
 )
 ASSUMPTIONS = [
     "schedules are sampled; preemption is at source-line granularity inside the hot functions (finer than CPython's GIL switching, coarser than bytecode)",
@@ -70,7 +72,27 @@ def case_strategy(draw):
         )
     )
     sched["syscnt"] = syscnt
-    return {"reqs": reqs, "unsol": sorted(unsol), "drops": sorted(drops), "stay_down": stay_down, "sched": sched}
+    burst = draw(st.sampled_from(["settled", "separate", "joined"]))
+    if draw(st.integers(0, 3)) == 0:
+        # focused family: bursts of inbound messages (replies at once, unsolicited primaries at the same instants), no rescuing
+        # traffic afterwards, a handler that returns at once, preemptions only in the dispatcher / receive hand-over
+        reqs = [
+            {"start": 0.0, "calls": [{"act": "reply", "delay": 0.0} for _ in range(draw(st.integers(1, 2)))]}
+            for _ in range(draw(st.integers(0, 3)))
+        ]
+        times = draw(st.lists(st.sampled_from([0.0, 0.05, 0.3]), min_size=0 if reqs else 2, max_size=5))
+        return {
+            "reqs": reqs,
+            "unsol": sorted(times),
+            "drops": [],
+            "stay_down": False,
+            "sched": {"seed": draw(st.integers(1, 2**31)), "switch": draw(st.sampled_from([0.5, 0.9])), "pprob": draw(st.sampled_from([0.05, 0.1, 0.2])),
+                      "hot": ["_dispatcher_thread_function", "queue_block"], "syscnt": syscnt},
+            "burst": draw(st.sampled_from(["separate", "joined"])),
+            "handler_sleep": draw(st.sampled_from([0.0, 0.0, 0.001])),
+            "family": "burst",
+        }
+    return {"reqs": reqs, "unsol": sorted(unsol), "drops": sorted(drops), "stay_down": stay_down, "sched": sched, "burst": burst, "handler_sleep": draw(st.sampled_from([0.001, 0.001, 0.0]))}
 
 
 def _reconnect(rig, sim, system, inbox):
@@ -107,7 +129,8 @@ def run_case(case, observe=None):
 
         def on_msg(rec):
             log.append(("enter", rec["system"], sim.now))
-            tshim.sleep(0.001)
+            if case.get("handler_sleep", 0.001):
+                tshim.sleep(case.get("handler_sleep", 0.001))
             log.append(("exit", rec["system"], sim.now))
 
         rig.on_message_hook = on_msg
@@ -243,13 +266,24 @@ def run_case(case, observe=None):
                 link_up = True
             if link_up:
                 pending.sort(key=lambda p: p[0])
+                # frames due at the same instant arrive as a burst (one segment | back-to-back segments), or one by one with
+                # the endpoint going idle in between ("settled")
+                burst = case.get("burst", "settled")
+                due = []
                 while pending and pending[0][0] <= sim.now:
-                    _, data, kind = pending.pop(0)
-                    rig.peer.send(data)
+                    due.append(pending.pop(0))
+                for _, data, kind in due:
+                    if burst != "joined":
+                        rig.peer.send(data)
                     if kind[0] == "unsol":
                         sent_unsol.append(kind[1])
                     elif kind[0] == "reply":
                         replies_sent[kind[1]] = sim.now
+                    if burst == "settled":
+                        sim.settle()
+                if due and burst == "joined":
+                    rig.peer.send(b"".join(d[1] for d in due))
+                if due and burst != "settled":
                     sim.settle()
             if len(results) == total_calls and not drops and (not link_up or (not pending and not unsol)):
                 sim.advance(0.2)
@@ -343,7 +377,10 @@ def run_task(name, kw, ctx):
         f = run_case(case, obs)
         ncalls = sum(len(r["calls"]) for r in case["reqs"])
         nt = (obs.get("max_outstanding", 0) >= 2) or obs.get("late_or_never", 0) > 0 or (obs.get("drops", 0) > 0 and ncalls >= 2)
-        cls = [f"requesters:{len(case['reqs'])}"]
+        cls = [f"requesters:{len(case['reqs'])}", f"burst:{case.get('burst', 'settled')}"]
+        if case.get("family") == "burst":
+            cls.append("family:burst")
+            nt = nt or (len(case["unsol"]) - len(set(case["unsol"])) >= 1) or ncalls >= 2
         if obs.get("max_outstanding", 0) >= 2:
             cls.append("concurrent-outstanding")
         if obs.get("late_or_never"):
